@@ -30,6 +30,7 @@ func checkC04(c *Ctx) {
 		rulePressProtocol(c, dv)
 	}
 	ruleDefaultsInitial(c, dv)
+	c.importRules(configIntactRules, []string{"R3.7"}, "R4.11") // defaults, action keys and mappings are read from an unmodified copy of the parsed configuration
 	c.MinCount("R4.1", 2)
 	c.MinCount("R4.2", 2)
 	c.MinCount("R4.3", 2)
